@@ -36,6 +36,9 @@ from tornado.log import app_log, gen_log
 from tornado.util import GzipDecompressor
 
 CR_OR_LF_RE = re.compile(b"\r|\n")
+# Control characters that may not appear in a start line or header line
+# (everything but HTAB; CR and LF are included).
+_FORBIDDEN_LINE_CHARS_RE = re.compile(b"[\x00-\x08\x0a-\x1f\x7f]")
 
 
 class _QuietException(Exception):
@@ -477,8 +480,10 @@ class HTTP1Connection(httputil.HTTPConnection):
         )
         lines.extend(line.encode("latin1") for line in header_lines)
         for line in lines:
-            if CR_OR_LF_RE.search(line):
-                raise ValueError("Illegal characters (CR or LF) in header: %r" % line)
+            if _FORBIDDEN_LINE_CHARS_RE.search(line):
+                raise ValueError(
+                    "Illegal characters (CR, LF or other control) in header: %r" % line
+                )
         future = None
         if self.stream.closed():
             future = self._write_future = Future()
